@@ -20,7 +20,9 @@ RULE = ("bounded enumeration: every history of length <= 3 (quick 2) over {get A
         "{tolerant, strict} x {sequential, parallel (with delays so the failing download finishes first or last)}, "
         "each followed by (i) retry in the same session and (ii) reopening a new FileCache on the directory and "
         "requesting every URI; plus crash points: the n-th executed line of cache_object.py/remote_resources.py (all n) "
-        "raises (exception-style crash) and, in a subprocess, os._exit(137) (true crash) - always followed by reopen. "
+        "raises (exception-style crash) and, in a subprocess, os._exit(137) (true crash) - always followed by reopen; "
+        "plus parallel requests of 6..12 URIs (several ThreadPool chunks) with not-found URIs and per-URI delays that "
+        "make later chunks complete first. "
         "distinct = (history, op index, fault kind, position, mode) ; non-trivial = a fault or crash was actually "
         "delivered (resource/monitor log).")
 ASSUMPTIONS = ["a crash is followed by a new FileCache on the same directory (no other recovery step exists)",
@@ -32,13 +34,15 @@ REQUIRED_MONITORS = ["C19.fault:request-omits-or-raises", "C19.fault:others-inta
                      "C19.crash:reopen-serves-only-complete-files", "C19.exit-crash:reopen-serves-only-complete-files"]
 REQUIRED_REACH = ["cache_object.py:_download_from_resources", "cache_object.py:FileCache.get_cache_misses",
                   "cache_object.py:FileCache._initialize_cache"]
-REQUIRED_COUNTERS = {"C19.faults_delivered": 20, "C19.crash_points": 50, "C19.exit_crashes": 3}
+REQUIRED_COUNTERS = {"C19.faults_delivered": 20, "C19.crash_points": 50, "C19.exit_crashes": 3,
+                     "C19.bigreq_completion_order_differs_from_request_order": 3}
 TIMEOUT = {"quick": 900, "thorough": 3600}
 OPS = {"gA": ["A"], "gAB": ["A", "B"], "gABC": ["A", "B", "C"], "reopen": None}
 FAULTS = ["notfound", "raise-before", "raise-half", "postprocess", "validation", "validation+notfound"]
 MAXLEN = {"quick": 2, "thorough": 3}
 ALL = ["A", "B", "C"]
 LIMIT = 10 ** 6
+PP_MARK = b"#post-processed"
 
 
 class SimulatedCrash(Exception):
@@ -51,6 +55,7 @@ def plan(tier, seed):
     shards += [{"mode": "crash", "history": h, "parallel": p}
                for h in (["gABC"], ["gA", "gABC"], ["gAB", "reopen", "gABC"]) for p in (False, True)]
     shards += [{"mode": "exit", "n": 6 if tier == "quick" else 40}]
+    shards += [{"mode": "bigreq", "n": 12 if tier == "quick" else 120}]
     return shards
 
 
@@ -70,6 +75,10 @@ def install_directives(cache, state):
         if k and os.path.basename(path).startswith(cl.expected_name(k)):
             state["pp_hit"] = True
             raise cl.Boom("post-processing failed")
+        # a successful post-processing step marks the file, so that a file served without having been
+        # post-processed (a "rejected" file) is distinguishable from a processed one
+        with open(path, "ab") as fh:
+            fh.write(PP_MARK)
         return None
 
     def vv(path):
@@ -85,24 +94,31 @@ def install_directives(cache, state):
         pass
 
 
-def verify_reopen(ctx, lab, wit, tag, prop="C19"):
-    """new FileCache on the directory, request every URI without directives"""
+def verify_reopen(ctx, lab, wit, tag, prop="C19", postprocess=False, keys=None):
+    """new FileCache on the directory, request every URI (with the post-processing directive when the history
+    used it: every served file must then be a *post-processed* one)"""
     lab.plan.clear()
+    keys = keys or ALL
     try:
         with warnings.catch_warnings():
             warnings.simplefilter("ignore")
             cache = lab.open()
-            paths = cache[[cl.uri(k) for k in ALL]]
+            if postprocess:
+                install_directives(cache, {})
+                paths = cache[["postprocess=pp:" + cl.uri(k) for k in keys]]
+            else:
+                paths = cache[[cl.uri(k) for k in keys]]
     except Exception as e:
         ctx.check(f"{prop}.{tag}", False, wit, {"exception-on-reopen": repr(e)}, key=f"{prop}:{tag}:exception")
         return
-    ok = len(paths) == len(ALL)
+    ok = len(paths) == len(keys)
     detail = None
-    for k, p in zip(ALL, paths):
-        if not (os.path.exists(p) and cl.read_noatime(p) == cl.content(k)):
+    for k, p in zip(keys, paths):
+        want = cl.content(k) + (PP_MARK if postprocess else b"")
+        if not (os.path.exists(p) and cl.read_noatime(p) == want):
             ok = False
             size = os.path.getsize(p) if os.path.exists(p) else None
-            detail = {"key": k, "served_size": size, "expected_size": len(cl.content(k))}
+            detail = {"key": k, "served_size": size, "expected_size": len(want), "postprocess": postprocess}
     ctx.check(f"{prop}.{tag}", ok, wit, detail, key=f"{prop}:{tag}:poisoned")
     files = lab.disk_cache_files()
     ctx.check(f"{prop}.reopen:len(cache)==cache-files-on-disk", len(cache) == len(files), wit,
@@ -119,6 +135,8 @@ def fault_run(ctx, hist, op_index, pos, fault, strict, parallel, continuation, w
     delays = (lambda key: (0.0 if (key == target_box.get("k")) == (pos % 2 == 0) else 0.01)) if parallel else None
     lab = cl.Lab(ctx, root, LIMIT, parallel, "C19", wit, delays=delays, allow_missing=not strict)
     state = {}
+    mark = PP_MARK if fault == "postprocess" else b""
+    pfx = "postprocess=pp:" if fault == "postprocess" else ""
     delivered = False
     try:
         cache = lab.open()
@@ -133,7 +151,7 @@ def fault_run(ctx, hist, op_index, pos, fault, strict, parallel, continuation, w
             if i != op_index:
                 with warnings.catch_warnings():
                     warnings.simplefilter("ignore")
-                    cache[[cl.uri(k) for k in keys]]
+                    cache[[("postprocess=pp:" if fault == "postprocess" else "") + cl.uri(k) for k in keys]]
                 cached |= set(keys)
                 continue
             # ---- the faulty request
@@ -206,7 +224,7 @@ def fault_run(ctx, hist, op_index, pos, fault, strict, parallel, continuation, w
                 if k == target and fault.startswith("validation"):
                     continue
                 p = os.path.join(root, cl.expected_name(k))
-                ctx.check("C19.fault:others-intact", os.path.exists(p) and cl.read_noatime(p) == cl.content(k), wit,
+                ctx.check("C19.fault:others-intact", os.path.exists(p) and cl.read_noatime(p) == cl.content(k) + mark, wit,
                           {"key": k, "previously-cached": True}, key="C19:fault:cached")
             # the failed URI must not be served as a hit now
             state.clear()
@@ -217,7 +235,9 @@ def fault_run(ctx, hist, op_index, pos, fault, strict, parallel, continuation, w
                 try:
                     with warnings.catch_warnings():
                         warnings.simplefilter("ignore")
-                        paths2 = cache[[cl.uri(k) for k in keys]]
+                        if pfx:
+                            install_directives(cache, state)
+                        paths2 = cache[[pfx + cl.uri(k) for k in keys]]
                 except Exception as e:
                     raised2 = e
                 started = [e[1] for e in lab.log if e[0] == "start"]
@@ -225,7 +245,7 @@ def fault_run(ctx, hist, op_index, pos, fault, strict, parallel, continuation, w
                     ctx.check("C19.retry:fetched-afresh", target in started, wit,
                               {"contacted": started, "target": target, "raised": repr(raised2)}, key="C19:retry:afresh")
                 good = raised2 is None and paths2 is not None and len(paths2) == len(keys) and all(
-                    os.path.exists(p) and cl.read_noatime(p) == cl.content(k) for k, p in zip(keys, paths2))
+                    os.path.exists(p) and cl.read_noatime(p) == cl.content(k) + mark for k, p in zip(keys, paths2))
                 ctx.check("C19.retry:returned-bytes", bool(good), wit, {"raised": repr(raised2)}, key="C19:retry:bytes")
                 files = lab.disk_cache_files()
                 ctx.check("C19.reopen:len(cache)==cache-files-on-disk", len(cache) == len(files), wit,
@@ -237,7 +257,7 @@ def fault_run(ctx, hist, op_index, pos, fault, strict, parallel, continuation, w
                     files = lab.disk_cache_files()
                     ctx.check("C19.reopen:len(cache)==cache-files-on-disk", len(cache) == len(files), wit,
                               {"len": len(cache), "files": len(files), "where": "after fault"}, key="C19:fault:len")
-                verify_reopen(ctx, lab, wit, "reopen:served-bytes==resource-bytes")
+                verify_reopen(ctx, lab, wit, "reopen:served-bytes==resource-bytes", postprocess=bool(pfx))
             return True
     except Exception as e:
         import traceback
@@ -432,8 +452,92 @@ def exit_runs(ctx, n, work):
             lab.close()
 
 
+# ------------------------------------------------------------------ large parallel requests (several pool chunks)
+BIG = ["A", "B", "C", "D", "E", "F", "G", "H", "I", "J", "K", "L"]
+
+
+def bigreq_run(ctx, c, work):
+    """one request of 6..12 URIs in parallel tolerant mode; some are not found; per-URI delays make later
+    work items (and later pool chunks) complete before earlier ones"""
+    keys, missing, slow = c["keys"], set(c["missing"]), set(c["slow"])
+    wit = {"bigreq": c}
+    root = os.path.join(work, "cache")
+    delays = lambda key: (0.03 if key in slow else 0.0)  # noqa
+    lab = cl.Lab(ctx, root, LIMIT, True, "C19", wit, delays=delays, allow_missing=True)
+    try:
+        cache = lab.open()
+        for k in missing:
+            lab.plan[k] = "notfound"
+        with warnings.catch_warnings():
+            warnings.simplefilter("ignore")
+            raised, paths = None, None
+            try:
+                paths = cache[[cl.uri(k) for k in keys]]
+            except Exception as e:
+                raised = e
+                cl.quiesce()
+        done = [e[1] for e in lab.log if e[0] in ("done", "notfound")]
+        ctx.case(("bigreq", len(keys), len(missing), "reordered" if done != [k for k in keys] else "in-order"),
+                 nontrivial=bool(missing), sample=c if len(ctx.samples) < 1 else None)
+        if done != keys:
+            ctx.count("C19.bigreq_completion_order_differs_from_request_order")
+        ctx.count("C19.faults_delivered", len(missing))
+        others = [k for k in keys if k not in missing]
+        good = (raised is None and paths is not None
+                and [os.path.basename(p) for p in paths] == [cl.expected_name(k) for k in others])
+        ctx.check("C19.fault:request-omits-or-raises", bool(good), wit,
+                  {"raised": repr(raised), "returned": paths and [os.path.basename(p) for p in paths],
+                   "expected": [cl.expected_name(k) for k in others]}, key="C19:bigreq:omit")
+        if good:
+            okb = all(os.path.exists(p) and cl.read_noatime(p) == cl.content(k) for k, p in zip(others, paths))
+            ctx.check("C19.fault:others-intact", okb, wit, key="C19:bigreq:others")
+        files = lab.disk_cache_files()
+        ctx.check("C19.reopen:len(cache)==cache-files-on-disk", len(cache) == len(files) == len(others), wit,
+                  {"len": len(cache), "files": len(files), "expected": len(others)}, key="C19:bigreq:len")
+        # retry: exactly the missing ones are fetched afresh
+        lab.plan.clear()
+        lab.log.clear()
+        raised2, paths2 = None, None
+        try:
+            with warnings.catch_warnings():
+                warnings.simplefilter("ignore")
+                paths2 = cache[[cl.uri(k) for k in keys]]
+        except Exception as e:
+            raised2 = e
+            cl.quiesce()
+        started = sorted(e[1] for e in lab.log if e[0] == "start")
+        ctx.check("C19.retry:fetched-afresh", started == sorted(missing), wit,
+                  {"contacted": started, "expected": sorted(missing), "raised": repr(raised2)}, key="C19:bigreq:afresh")
+        good2 = raised2 is None and paths2 is not None and len(paths2) == len(keys) and all(
+            os.path.exists(p) and cl.read_noatime(p) == cl.content(k) for k, p in zip(keys, paths2))
+        ctx.check("C19.retry:returned-bytes", bool(good2), wit, {"raised": repr(raised2)}, key="C19:bigreq:retry")
+        verify_reopen(ctx, lab, wit, "reopen:served-bytes==resource-bytes", keys=keys)
+    finally:
+        lab.close()
+
+
+def gen_bigreq(rng):
+    n = int(rng.integers(6, 13))
+    keys = [str(k) for k in rng.permutation(BIG)[:n]]
+    nmiss = int(rng.choice([1, 1, 2]))
+    missing = [str(k) for k in rng.choice(keys, size=nmiss, replace=False)]
+    mode = str(rng.choice(["first-chunk-slow", "random-slow", "head-slow"]))
+    if mode == "first-chunk-slow":
+        slow = keys[:5]
+    elif mode == "head-slow":
+        slow = keys[:1]
+    else:
+        slow = [k for k in keys if rng.uniform() < 0.5]
+    return {"keys": keys, "missing": missing, "slow": slow, "mode": mode}
+
+
 def run_shard(ctx, shard):
     work = os.environ.get("VERIF_WORK", "/verif/.work")
+    if shard["mode"] == "bigreq":
+        rng = ctx.rng()
+        for _ in range(shard["n"]):
+            bigreq_run(ctx, gen_bigreq(rng), work)
+        return
     if shard["mode"] == "faults":
         for idx, args in enumerate(enumerate_fault_runs(shard["maxlen"])):
             if idx % shard["of"] != shard["part"]:
@@ -451,7 +555,9 @@ def run_shard(ctx, shard):
 
 def replay(ctx, case):
     work = os.environ.get("VERIF_WORK", "/verif/.work")
-    if case.get("crash"):
+    if "bigreq" in case:
+        bigreq_run(ctx, case["bigreq"], work)
+    elif case.get("crash"):
         crasher = LineCrasher()
         crash_runs(ctx, case["history"], case["parallel"], work)
     elif "exit" in case:
